@@ -67,7 +67,7 @@ def element(draw, depth, in_translate, used_names, allow_name=True):
             continue
         if draw(st.integers(0, 3)) == 0:
             el["attrs"].append([an, "dyn", draw(st.sampled_from(
-                ["v0", "v1"]))])
+                ["v0", "v1", "v0", "v1", "vn"]))])
         else:
             el["attrs"].append([an, "static", draw(st.sampled_from(
                 ["Hello", "a b", "x &amp; y", ""]))])
@@ -262,6 +262,7 @@ class Model:
         self.translate = make_translate(case["fn"], self.log)
         self.env = dict(case["bindings"])
         self.env["m0"] = values.Msg("m-zero")
+        self.env["vn"] = None
         self.last_text = ""
         self.ws = "\n"
 
@@ -384,12 +385,18 @@ class Model:
             for an, kind, val in static + dyn:
                 if kind == "static":
                     v = val
+                elif self.env[val] is None:
+                    # the attribute is dropped; nothing is translated
+                    continue
                 else:
                     v = self.insert(self.env[val], st_, '"')
                 if an in spec:
-                    mid = spec[an] if spec[an] is not None else v
-                    v = self.call(mid, st_, default=v)
-                elif kind == "static" and an in \
+                    # an empty value is translated only under an explicit id
+                    if spec[an] is not None:
+                        v = self.call(spec[an], st_, default=v)
+                    elif v:
+                        v = self.call(v, st_, default=v)
+                elif kind == "static" and v and an in \
                         self.case["implicit_attributes"]:
                     v = self.call(v, st_, default=v)
                 buf.append(' %s="%s"' % (an, v))
@@ -496,6 +503,7 @@ class I18n(Part):
                             dict(detail, outcome=o.brief()))
         env = dict(case["bindings"])
         env["m0"] = values.Msg("m-zero")
+        env["vn"] = None
         if case["target_language"] is not None:
             env["target_language"] = case["target_language"]
         o = run(o.value.render, **env)
@@ -738,6 +746,7 @@ class Macros(Part):
                   "target_language": case["target_language"]}
         env = dict(case["bindings"])
         env["m0"] = values.Msg("m-zero")
+        env["vn"] = None
         if case["target_language"] is not None:
             env["target_language"] = case["target_language"]
         o = run(PageTemplate, a, **cfg)
